@@ -541,10 +541,13 @@ def check_r3(facts, rep, crate):
                 rep.bad(rid, key, where, "borrowed arm of truncate is not `&data[..len]` of the caller's len")
     # macro-generated delegating methods: both arms call a method of the function's own name
     m = 0
+    DELEGATED = {"as_ref", "advance", "remaining", "chunk", "deref", "len", "is_empty"}
     for b in crate.bodies:
         if b.kind != "AssocFn" or "CowBytes" not in b.path:
             continue
-        if not any("impl_by_delegate" in e for e in (b.loc.get("exp") or [])):
+        # the byte-view accessors: generated by impl_by_delegate! or written by hand in the same two-arm form
+        if not any("impl_by_delegate" in e for e in (b.loc.get("exp") or [])) and not (
+                b.name in DELEGATED and (b.j.get("impl_self") or {}).get("s", "").startswith("CowBytes")):
             continue
         m += 1
         rep.analysed(b)
